@@ -1,4 +1,6 @@
 """C44 -- heartbeats detect dead idle connections without leaking capacity."""
+import os
+
 from hypothesis import strategies as st
 
 from checks import _simclu as S
@@ -9,6 +11,7 @@ PID = "C44"
 TITLE = "Heartbeats detect dead idle connections without leaking capacity"
 LEVEL = "exploration"
 ENGINE = "sim"
+SERIAL = os.environ.get("VERIF_TIER") == "quick"   # heavily loaded machine: a forked pool is slower than one process
 TECHNIQUE = ("model-based generation of heartbeat rounds (Hypothesis) over the real Cluster/ConnectionHeartbeat/pools/"
              "control connection on a deterministic simulated network and virtual clock; the fake servers' frame log is "
              "the reference for who was idle and who was probed")
